@@ -37,7 +37,8 @@ EXPLANATION = (
     "without taking it back or re-assigning it. (E2t) every strncpy into a fixed char array with a constant size is followed, on every path to the next use of the array, by a store of 0 at an index not above that size - or cannot need one (literal source shorter than the size; zero-initialised storage whose tail is never written; a constructor-established terminator beyond the size; identifier sources under the identifier-length assumption). (R7) a call that passes a link field of a list / tree node (pointer fields whose pointee is the record's own hierarchy; NULL at the ends) to a function that dereferences the parameter, or calls a member function through it, before any test (summaries from the may-be-NULL walk) is guarded by a test of that field in the caller (two sites exempt with their invariant). (R6) pointer members that a non-destructor method leaves untouched while it frees the objects reached through a sibling member of the same type (discovered: SingleLinkList::tail vs head in Empty()) are dereferenced only where the sibling is known to be non-NULL or after an assignment in the same function. (R5) every call-graph cycle reachable from the entry points (Tarjan over the resolved call graph with class-hierarchy expansion) consists of functions classified in tables/c05_recursion.json by what bounds the depth (schema structure, constant, dead branch, or only the input); input-bounded cycles and unlisted recursive functions fail. Not decided: heap lifetime beyond R4, integer overflow, the exact depth at which an input-bounded recursion exhausts the stack, time proportional to input, "
     "judy.c / sc_hash.cc internals (vendored containers with structural invariants)."
     " (R8, shared with C06 R6N) a local pointer is not dereferenced where every definition that reaches the dereference is the null constant."
-    " (R9) after `delete p` neither p nor a variable p was copied to is dereferenced (or deleted again) before it is assigned something else: typestate 'set of dangling variables' over the flag-consistent paths of every function that deletes a local pointer.")
+    " (R9) after `delete p` neither p nor a variable p was copied to is dereferenced (or deleted again) before it is assigned something else: typestate 'set of dangling variables' over the flag-consistent paths of every function that deletes a local pointer."
+    " (R10, engine of C18 R1) no local of the reader/writer libraries is read before it is assigned (clang -Wuninitialized / -Wsometimes-uninitialized over every unit).")
 
 ENTRIES = ["STEPfile::ReadExchangeFile", "STEPfile::AppendExchangeFile", "STEPfile::ReadWorkingFile",
            "STEPfile::AppendWorkingFile", "STEPfile::WriteExchangeFile", "STEPfile::WriteWorkingFile",
@@ -481,6 +482,10 @@ def r5_recursion(prog, res, reachable):
 
 
 def run(prog, res, tier):
+    from rules import c18 as _c18
+    _c18.r1_decls(res, tier, rule="R10.no_uninitialised_local", components=set(tuple(UNITS["components"])), min_units=80,
+                  wflags=("-Wno-everything", "-Wuninitialized", "-Wsometimes-uninitialized"), groups=("uninitialized", "sometimes-uninitialized"),
+                  tail=" — reading an indeterminate value is undefined behaviour")
     reachable, keys = memsafe.reach(prog, CFG)
     if len(keys) < 8:
         res.broke("entry points vanished: only %d of the reader/writer entry functions found" % len(keys))
